@@ -22,7 +22,7 @@ from typing import Any, Generic
 
 from .base import BaseLintContext, BaseLintRule
 from .constants import Language
-from .linter_utils import ConfigType, has_file_content, load_linter_config
+from .linter_utils import ConfigType, drop_suppressed, has_file_content, load_linter_config
 from .types import Violation
 
 
@@ -84,7 +84,8 @@ class PythonOnlyLintRule(BaseLintRule, Generic[ConfigType]):
             return []
 
         file_path = str(context.file_path) if context.file_path else "unknown"
-        return self._analyze(context.file_content or "", file_path, config)
+        violations = self._analyze(context.file_content or "", file_path, config)
+        return drop_suppressed(violations, context)
 
     def _should_analyze(self, context: BaseLintContext) -> bool:
         """Check if context should be analyzed."""
